@@ -77,10 +77,36 @@ def c12_case(draw, max_tasks=8, ext=False):
     return dict(spec=spec)
 
 
+DYADIC = [1024, 2048, 4096, 0, 2 ** -20, 2 ** -14, 2048 - 2 ** -20, 4096 - 2 ** -20, 2048 + 2 ** -14, 512, 131072, 131072 - 2 ** -14]
+
+
+@st.composite
+def dyadic_case(draw, max_tasks=7):
+    """long projects whose durations are binary fractions: every float sum is exact, so a positive slack of 2**-20
+    is a real slack, however long the project is"""
+    spec = draw(specs.wbs_spec(max_tasks=max_tasks, min_tasks=2, min_start=False))
+    for t in spec['tasks']:
+        t['estimate'] = draw(st.sampled_from(DYADIC))
+        t['spent'] = draw(st.sampled_from([None, None, 0, 2 ** -20]))
+        t['milestone'] = False
+    return dict(spec=spec, exact=True)
+
+
 def check(case, exclude=True):
     res = Result()
     spec = case['spec']
     m = Model(spec)
+    global fr
+    fr_saved = fr
+    if case.get('exact'):
+        fr = lambda x: F(x) if x is not None else F(0)       # binary value of the float (sums are exact in this stream)
+    try:
+        return _check(case, res, spec, m)
+    finally:
+        fr = fr_saved
+
+
+def _check(case, res, spec, m):
     w, objs, ext = specs.build(spec)
     for e in spec.get('ext', []):
         ext[e['id']].estimate = 50
@@ -141,5 +167,6 @@ def streams(tier):
     n = 8 if tier == 'quick' else 10
     return [Stream('generated', check, strategy=lambda: c12_case(max_tasks=n), examples={'quick': 6000, 'thorough': 100000}),
             Stream('large', check, strategy=lambda: c12_case(max_tasks=40), examples={'quick': 600, 'thorough': 10000}),
+            Stream('long-dyadic', check, strategy=lambda: dyadic_case(), examples={'quick': 1500, 'thorough': 20000}),
             Stream('outside-predecessors', check, strategy=lambda: c12_case(max_tasks=6, ext=True), examples={'quick': 800, 'thorough': 8000}),
             Stream('all-small-dags', check, exhaustive=exhaustive)]
